@@ -15,6 +15,8 @@ NASTY_NAMES = ["", "0", "1", "-1", "a b", "'", '"', "\\", "a'b", "/", "\n", "\t"
                "\u007f", "é", "￿", "😀", "$", "@", "*", "a.b", "[0]", "true", "null", "_x", "A", "ab", "😀x", "a😀b", "😀😀", "😀\n", "\u0080", "\u009f", "a\x7fb",
                # names whose CONTENT looks like quoting or escaping: backslash next to either quote, text that reads like an escape
                '\\"', '"\\', "\\'", "'\\", 'a\\"b', "\\\\", '\\"\\', "'\"", "\"'", "\\n", "\\u0041", "\\/", "\"\"", "''", "\\\"'"]
+# documents that are STRINGS whose content happens to be JSON text: they are strings, never decoded
+JSON_TEXT_STRINGS = ["1", "true", "null", "[1, 2]", '{"a": 1}', '"q"', "[1,", " 1", "1.5", "[]", "{}", "[[1]]", '{"a": {"a": [0]}}']
 SCALARS: List[Any] = [0, 1, -1, 2, 10, 1.5, -0.0, 1.0, 0.1, "", "a", "b", "ab", "0", "é", "😀", True, False, None,
                       9007199254740993, -(10**30)]
 
